@@ -84,3 +84,34 @@ Proof. exact for_equals_unrolled_labels. Qed.
 Theorem C10_kind_invisible : forall w ns1 ns2 r1 r2,
   Forall2 (nrel w) ns1 ns2 -> ksim r1 r2 -> res_rel ok (assemble_nodes w r1 ns1) (assemble_nodes w r2 ns2).
 Proof. exact assemble_nodes_k. Qed.
+
+(** [.if] end to end: the whole assembly of a program with an [.if] equals the whole assembly of
+    the program with the selected branch's statements written in its place (plain equality of the
+    result: blocks, labels, final state, or the same failure).  The branch of an [.if] is generated
+    one nesting level deeper than statements written in place, so the equality carries the side
+    condition that one of the two programs stays inside the nesting limit (RecursionError); it is
+    needed (Proofs/IfInline.v, limit_if / limit_flat) and absent when nothing is selected. *)
+From A816 Require Import Proofs.IfInline.
+Theorem C10_if_assembly : forall w r pre post c th thfi el fi b,
+  (forall x, code_gen_fuel w cg_depth (cg0 r) pre = Ok x -> if_condition w (cg_r (fst x)) c = Ok b) ->
+  code_gen_fuel w cg_depth (cg0 r) (pre ++ AIf c th thfi el fi :: post) <> Err ERecursion \/
+  code_gen_fuel w (pred cg_depth) (cg0 r) (pre ++ selected b th el ++ post) <> Err ERecursion ->
+  assemble_ast w r (pre ++ AIf c th thfi el fi :: post) = assemble_ast w r (pre ++ selected b th el ++ post).
+Proof. exact if_equals_selected. Qed.
+Theorem C10_if_true_assembly : forall w r pre post c th thfi el fi v,
+  (forall x, code_gen_fuel w cg_depth (cg0 r) pre = Ok x -> eval_raw w (cg_r (fst x)) c = Ok v) -> v <> 0 ->
+  code_gen_fuel w cg_depth (cg0 r) (pre ++ AIf c th thfi el fi :: post) <> Err ERecursion ->
+  assemble_ast w r (pre ++ AIf c th thfi el fi :: post) = assemble_ast w r (pre ++ th ++ post).
+Proof. exact if_true_equals_then. Qed.
+Theorem C10_if_undefined_assembly : forall w r pre post c th thfi eb ebfi fi,
+  (forall x, code_gen_fuel w cg_depth (cg0 r) pre = Ok x -> eval_raw w (cg_r (fst x)) c = Err ESymbol) ->
+  code_gen_fuel w cg_depth (cg0 r) (pre ++ AIf c th thfi (Some (eb, ebfi)) fi :: post) <> Err ERecursion ->
+  assemble_ast w r (pre ++ AIf c th thfi (Some (eb, ebfi)) fi :: post) = assemble_ast w r (pre ++ eb ++ post).
+Proof. exact if_undefined_equals_else. Qed.
+Theorem C10_if_false_assembly : forall w r pre post c th thfi fi,
+  (forall x, code_gen_fuel w cg_depth (cg0 r) pre = Ok x -> if_condition w (cg_r (fst x)) c = Ok false) ->
+  assemble_ast w r (pre ++ AIf c th thfi None fi :: post) = assemble_ast w r (pre ++ post).
+Proof. exact if_false_equals_nothing. Qed.
+(** More nesting budget changes nothing but RecursionError itself (failures included). *)
+Theorem C10_nesting_stable : forall w f, stable (code_gen_fuel w f) (code_gen_fuel w (S f)).
+Proof. exact code_gen_stable. Qed.
